@@ -357,6 +357,25 @@ pub fn assign_random_shapes(m: &mut Model, rng: &mut Rng, used_prob: f64) {
     }
 }
 
+/// Give nonterminals and terminals names whose alphabetical order is unrelated to their
+/// declaration order (kiki sorts symbols, items and states by name).
+pub fn shuffle_names(m: &mut Model, rng: &mut Rng) {
+    const POOL: &[&str] = &["A", "B", "C", "D", "E", "F", "G", "H", "K", "L", "M", "P", "Q", "R", "U", "W", "X", "Y", "Z", "Aa", "Ab", "Zz", "B2", "B10", "M_", "_9Q"];
+    let n = m.nts.len() + m.terms.len();
+    if n > POOL.len() {
+        return;
+    }
+    let mut names: Vec<&str> = POOL.to_vec();
+    rng.shuffle(&mut names);
+    for (i, nt) in m.nts.iter_mut().enumerate() {
+        nt.name = format!("{}n", names[i]);
+    }
+    let off = m.nts.len();
+    for (i, t) in m.terms.iter_mut().enumerate() {
+        t.name = format!("{}t", names[off + i]);
+    }
+}
+
 /// Build a model from a plain CFG with default names and all-skipped tuple fields.
 pub fn model_from_cfg(cfg: &Cfg, force_enum: &[bool]) -> Model {
     let mut nts = vec![];
